@@ -55,8 +55,6 @@ Fixpoint longest_run_aux (c : N) (s : str) (cur best : nat) : nat :=
   end.
 Definition longest_run (c : N) (s : str) : nat := longest_run_aux c s O O.
 
-Fixpoint run_len (c : N) (s : str) : nat :=
-  match s with x :: s' => if N.eqb x c then S (run_len c s') else O | [] => O end.
 
 (* _min_fence_length: ^[ ]{0,3}(X{3,}) with MULTILINE over the content *)
 Definition fence_run_at_line_start (fc : N) (line : str) : nat :=
@@ -121,7 +119,7 @@ Section Render.
     match e with
     | IRaw s => let t := pangu s in (t, cur ++ t)
     | ICode s => (render_code_span s, cur)
-    | IBreak soft => (if soft then [nlc] else [bsl; nlc], cur)
+    | IBreak soft => if soft then ([nlc], cur) else ([bsl; nlc], [])
     | ILit c => render_literal h c cur
     | IHtml s => (s, cur)
     | IFootRef l => ([91; 94]%N ++ l ++ [93%N], cur)
@@ -182,7 +180,8 @@ Section Render.
     let extra_text := match extra with [] => [] | _ => [sp] ++ extra end in
     let lang_text := match lang with [] => [] | _ => lang ++ extra_text end in
     let fence := repeat fc (Nat.max flen (min_fence_length code fc)) in
-    let first := r_prefix st ++ fence ++ lang_text in
+    let info_sep := match lang_text with c :: _ => if N.eqb c fc then [sp] else [] | [] => [] end in
+    let first := r_prefix st ++ fence ++ info_sep ++ lang_text in
     let empty_pref := rstrip (r_prefix2 st) in
     let code_lines := match code with [] => [] | _ => split_on nlc code end in
     let body := map (fun l => match l with [] => empty_pref | _ => r_prefix2 st ++ l end) code_lines in
@@ -310,27 +309,27 @@ Section Render.
             let '(pre, st) :=
               if r_tight st then ([], st)
               else if r_suppress st then ([], set_suppress false st)
-              else (strip (r_prefix2 st) ++ [nlc], st) in
+              else (rstrip (r_prefix2 st) ++ [nlc], st) in
             match c with
             | [] => ret (pre ++ rstrip (r_prefix st) ++ [nlc], next_prefix st)
             | _ => r <- kids c st ;; ret (pre ++ fst r, snd r)
             end
         | KQuote =>
-            let st := set_skip false st in
+            let st := set_suppress true (set_skip false st) in
             let p := r_prefix st in let p2 := r_prefix2 st in
             r <- kids c (set_prefixes (p ++ [62; 32]%N) (p2 ++ [62; 32]%N) st) ;;
             let st' := set_prefixes p p2 (snd r) in
             ret (mark_empty_lines (rstrip (r_prefix2 (snd r))) (rstrip_nl (fst r)) ++ [nlc],
-                 set_suppress false (next_prefix st'))
+                 set_suppress false (next_prefix (set_skip false st')))
         | KAlert atype =>
             let st := set_skip false st in
             let header := r_prefix st ++ [62; 32; 91; 33]%N ++ atype ++ [93; 10]%N in
-            let st := next_prefix st in
+            let st := set_suppress true (next_prefix st) in
             let p := r_prefix st in let p2 := r_prefix2 st in
             r <- kids c (set_prefixes (p ++ [62; 32]%N) (p2 ++ [62; 32]%N) st) ;;
             let st' := set_prefixes p p2 (snd r) in
             ret (header ++ mark_empty_lines (rstrip (r_prefix2 (snd r))) (rstrip_nl (fst r)) ++ [nlc],
-                 set_suppress false (next_prefix st'))
+                 set_suppress false (next_prefix (set_skip false st')))
         | KFootDef label =>
             let p := r_prefix st in let p2 := r_prefix2 st in
             r <- kids c (set_prefixes (p ++ [91; 94]%N ++ label ++ [93; 58; 32]%N) (p2 ++ spaces 4) st) ;;
